@@ -7,7 +7,7 @@ Statements
   ["unit", acc, [vref per field], launch_vref|None]   full-field accfg.setup + launch + await
   ["for", {"lb": ["c", v]|["a"], "step": ["c", v]|["a"], "ub": ["a"]|["c", trips]}, body, [init vrefs], [yield vrefs]]
   ["if", ["p", k] | ["cmp", pred, vref, vref], then, else, [then-value vref, else-value vref]]   (5th element optional: data result)
-  ["unit", acc, value refs, launch seed, [order seed, keep]]   optional 5th element: partial setup in another field order (C04 only)
+  ["unit", acc, value refs, launch seed, [order seed, keep] | ["idx", [field indices]]]   optional 5th element: partial setup, other field order (C04, C07)
   ["call", annotated, k]
   ["pure", opname, vref, vref]
 A vref is an int taken modulo the number of values visible at that point (arguments, constants, induction
@@ -54,7 +54,7 @@ def _loop_hdr(draw):
     return dict(lb=["c", draw(st.sampled_from([0, 0, 2]))], step=["c", draw(st.sampled_from([1, 2]))], ub=["a"])
 
 
-def _stmts(accs, depth, max_stmts, calls=True, pure=True, carried=True, unit_weight=3):
+def _stmts(accs, depth, max_stmts, calls=True, pure=True, carried=True, unit_weight=3, partial=False):
     @st.composite
     def block(draw, depth=depth, budget=max_stmts):
         n = draw(st.integers(1, max(1, min(5, budget))))
@@ -114,8 +114,33 @@ def _stmts(accs, depth, max_stmts, calls=True, pure=True, carried=True, unit_wei
                     for j in range(nf):
                         if draw(st.integers(0, 99)) < p:
                             v[j] = draw(st.sampled_from(lpool))
-                    return ["unit", a, v, None]
+                    u_ = ["unit", a, v, None]
+                    if partial and nf > 1 and draw(st.booleans()):
+                        # hand-written style (C07 only): the unit configures a subset of the fields
+                        u_.append([draw(st.integers(0, 11)), draw(st.integers(0, max(0, nf - 2)))])
+                    return u_
 
+                if partial and nf > 1 and draw(st.booleans()):
+                    # one field F is set before the loop, restored to that value in one branch only, left alone in the other branch
+                    # and changed behind the conditional; the other fields go their own way
+                    f = draw(st.integers(0, nf - 1))
+                    others = [j for j in range(nf) if j != f]
+                    alt = list(base)
+                    alt[f] = draw(st.sampled_from(lpool))
+                    restore = ["unit", a, list(base), None, ["idx", [f] + (others[:1] if draw(st.booleans()) else [])]]
+                    leave = ["unit", a, list(alt), None, ["idx", others[: draw(st.integers(1, len(others)))]]]
+                    change = ["unit", a, list(alt), None, ["idx", [f] + (others[:1] if draw(st.booleans()) else [])]]
+                    branches = [[restore], [leave]]
+                    if draw(st.integers(0, 3)) == 0:
+                        branches.reverse()
+                    loop = ["for", draw(_loop_hdr()), [["if", ["p", draw(st.integers(0, 3))], branches[0], branches[1]], change], [], []]
+                    if draw(st.booleans()):
+                        loop = ["for", draw(_loop_hdr()), [loop], [], []]
+                    out.append(["unit", a, list(base), None])
+                    out.append(loop)
+                    if draw(st.booleans()):
+                        out.append(variant(30))
+                    continue
                 th = [variant(20)] if draw(st.integers(0, 4)) else []
                 el = [variant(60)] if draw(st.booleans()) else []
                 inner_body = [["if", ["p", draw(st.integers(0, 3))], th, el], variant(70)]
@@ -289,7 +314,7 @@ def _inputs(draw, nargs, nconds, nloops):
 
 
 @st.composite
-def program(draw, tier="quick", calls=True, pure=True, carried=True, max_accs=2, fields=None):
+def program(draw, tier="quick", calls=True, pure=True, carried=True, max_accs=2, fields=None, partial=False):
     depth = 3 if tier == "quick" else 4
     max_stmts = 8 if tier == "quick" else 14
     # tight mode: few fields and a very small value pool, so that different setups collide on the same values often
@@ -305,7 +330,7 @@ def program(draw, tier="quick", calls=True, pure=True, carried=True, max_accs=2,
     nargs = 1 if tight else draw(st.integers(1, 3))
     consts = draw(st.lists(st.sampled_from([0, 1, 2, 5, 16, 64]), min_size=1, max_size=1 if tight else 3, unique=True))
     nconds = draw(st.integers(1, 3))
-    body = draw(_stmts(accs, depth, max_stmts, calls=calls, pure=pure, carried=carried))
+    body = draw(_stmts(accs, depth, max_stmts, calls=calls, pure=pure, carried=carried, partial=partial))
     inputs = draw(_inputs(nargs, nconds, count_loops(body)))
     return dict(accs=accs, nargs=nargs, consts=consts, nconds=nconds, body=body, inputs=inputs)
 
@@ -363,12 +388,20 @@ def build(recipe, ty=None, extra_module_ops="", func_name="main") -> Built:
                 ops = [vref(vrs[j % len(vrs)] if vrs else 0, vals) for j in range(len(fields))]
                 if len(s) > 4 and s[4] is not None and len(fields) > 1:
                     # partial setup in another field order (C04 only): rotate by s[4][0], reverse if odd, keep the first s[4][1] % n + 1
-                    idxs = list(range(len(fields)))
-                    rot = s[4][0] % len(idxs)
-                    idxs = idxs[rot:] + idxs[:rot]
-                    if s[4][0] & 1:
-                        idxs.reverse()
-                    idxs = idxs[: s[4][1] % len(idxs) + 1]
+                    if s[4][0] == "idx":
+                        # explicit list of field indices
+                        idxs = []
+                        for j in s[4][1]:
+                            if j % len(fields) not in idxs:
+                                idxs.append(j % len(fields))
+                        idxs = idxs or [0]
+                    else:
+                        idxs = list(range(len(fields)))
+                        rot = s[4][0] % len(idxs)
+                        idxs = idxs[rot:] + idxs[:rot]
+                        if s[4][0] & 1:
+                            idxs.reverse()
+                        idxs = idxs[: s[4][1] % len(idxs) + 1]
                     fields = [fields[j] for j in idxs]
                     ops = [ops[j] for j in idxs]
                     b.features.add("partial_unit")
